@@ -162,6 +162,7 @@ func TestVerif_C18(t *testing.T) {
 	rep.Exhaustive = true
 	rng := vh.NewRng(vh.Seed())
 	greedyAgree := 0
+	nTimeouts := 0
 	for n := 1; n <= maxN; n++ {
 		perms := vc18Perms(n)
 		for mask := 0; mask < 1<<uint(n); mask++ {
@@ -187,6 +188,11 @@ func TestVerif_C18(t *testing.T) {
 					rep.Count(fmt.Sprintf("jobs=%d", n))
 					if timedOut {
 						rep.Fail("no-termination", "FirstSuccess did not return within 10 s", c)
+						nTimeouts++
+						if nTimeouts >= 3 {
+							rep.Note("stopped after %d calls that never returned", nTimeouts)
+							goto finish
+						}
 						continue
 					}
 					if other != "" {
@@ -242,6 +248,7 @@ func TestVerif_C18(t *testing.T) {
 			}
 		}
 	}
+finish:
 	rep.Flag("winner_equals_first_released_success", greedyAgree)
 	if len(rep.Samples) == 0 {
 		rep.Sample(map[string]interface{}{"outs": []int64{-10, 101}, "limit": 1, "order": []int{1, 0}})
